@@ -14,22 +14,26 @@
 EXTENDS HashTables
 
 CONSTANTS MaxNames, MaxSyms, MaxMult,
+          MaxSymsSysv,    \* mode "sysv" tries every input order: keep it smaller
           GnuHashes,      \* hash values (as integers) a name may take in mode "gnu"
           SysvHashes,     \* ... in mode "sysv"
-          NBuckets,       \* bucket counts tried besides wild's own choice
-          MaskWordsSet, Shifts,
+          ParamSet,       \* table parameters tried: [nb (0: wild's choice), mw, sft, u (undefined symbol in front)]
+          AllAbsent,      \* TRUE: probe an absent name with every hash value; FALSE: with the values
+                          \* that are critical for the scenario (equal, equal but low bit, same bucket...)
           Modes
 
 Hashes64 == 0..63
 (* representatives: all residues mod 4, both bloom words, equal-but-low-bit pairs, extremes *)
 Hashes16 == {0, 1, 2, 3, 4, 5, 6, 9, 16, 17, 31, 32, 42, 43, 62, 63}
+(* all values of the low four bits (every bucket for <= 8 buckets, both bloom words), high bits 00 / 11 *)
+Hashes32 == (0..15) \cup (48..63)
 Hashes8  == {0, 1, 2, 5, 8, 17, 42, 63}
-NB124 == {1, 2, 4}
-NB1248 == {1, 2, 4, 8}
-MW12 == {1, 2}
-MW124 == {1, 2, 4}
-Shifts12 == {1, 2}
-Shifts125 == {1, 2, 5}
+P(nb, mw, sft, u) == [nb |-> nb, mw |-> mw, sft |-> sft, u |-> u]
+(* wild's parameters (one bloom word, shift = log2 C) for 1/2/4 buckets and its own bucket count,
+   with and without an undefined symbol in front; two bloom words / another shift once *)
+QuickParams == {P(0, 1, 2, FALSE), P(1, 1, 2, TRUE), P(2, 1, 2, FALSE), P(4, 1, 2, TRUE),
+                P(2, 2, 1, TRUE), P(4, 2, 2, FALSE)}
+FullParams == {P(nb, mw, sft, u) : nb \in {0, 1, 2, 4, 8}, mw \in {1, 2, 4}, sft \in {1, 2, 5}, u \in BOOLEAN}
 BothModes == {"gnu", "sysv"}
 GnuMode == {"gnu"}
 SysvMode == {"sysv"}
@@ -62,14 +66,16 @@ Total == SumM(names, Len(names))
 
 Init == mode \in Modes /\ names = <<>>
 
+Cap == IF mode = "sysv" THEN MaxSymsSysv ELSE MaxSyms
+
 AddName ==
-    /\ Len(names) < MaxNames /\ Total < MaxSyms
+    /\ Len(names) < MaxNames /\ Total < Cap
     /\ \E hv \in (IF mode = "sysv" THEN SysvHashes ELSE GnuHashes) :
            names' = Append(names, [h |-> hv, m |-> 1])
     /\ UNCHANGED mode
 
 AddDup ==
-    /\ Total < MaxSyms
+    /\ Total < Cap
     /\ \E k \in 1..Len(names) :
            /\ names[k].m < MaxMult
            /\ names' = [names EXCEPT ![k].m = @ + 1]
@@ -90,6 +96,9 @@ Flat(k) == IF k = 0 THEN <<>>
                                    [name |-> k, ver |-> j + 1, gh |-> GhOf(k), sh |-> ShOf(k)]]
 D0 == Flat(Len(names))
 HasDup == \E k \in 1..Len(names) : names[k].m > 1
+(* one order (ascending / descending version) per name that has several versions *)
+FlipSet == {f \in [1..Len(names) -> BOOLEAN] : \A k \in 1..Len(names) : names[k].m = 1 => ~f[k]}
+NoFlip == [k \in 1..Len(names) |-> FALSE]
 
 UndefName == 90
 AbsentName == 100
@@ -99,32 +108,49 @@ Undef == [name |-> UndefName,
           sh |-> IF names = <<>> THEN <<0, 0>> ELSE ShOf(1)]
 Us == {<<>>, <<Undef>>}
 
-Probes == <<[name |-> UndefName, gh |-> Undef.gh, sh |-> Undef.sh]>>
-          \o [k \in 1..Len(names) |-> [name |-> k, gh |-> GhOf(k), sh |-> ShOf(k)]]
-          \o [v \in 1..(Half * Half) |-> [name |-> AbsentName, gh |-> H(v - 1), sh |-> H(v - 1)]]
+(* Probes: the undefined name and an absent name (defined names are looked up by GnuFinds /
+   SysvFinds).  Hash values for the absent name: everything, or what is critical relative to the defined
+   hashes v: v (full collision), v+-1 within the pair (equal but for the low bit), v+C (same low
+   bloom bit), v+Half (differs in the high half only), and the extremes *)
+Top == Half * Half
+NearVals == {0, 1, Top - 1} \cup
+            UNION {{names[k].h, (names[k].h \div 2) * 2 + (1 - (names[k].h % 2)), (names[k].h + C) % Top,
+                    (names[k].h + Half) % Top, Mix(names[k].h)} : k \in 1..Len(names)}
+AbsentVals == IF AllAbsent THEN 0..(Top - 1) ELSE NearVals
+RECURSIVE SeqOf(_)
+SeqOf(S) == IF S = {} THEN <<>> ELSE LET x == CHOOSE y \in S : TRUE IN <<x>> \o SeqOf(S \ {x})
+
+Probes == LET av == SeqOf(AbsentVals) IN
+          <<[name |-> UndefName, gh |-> Undef.gh, sh |-> Undef.sh]>>
+          \o [j \in 1..Len(av) |-> [name |-> AbsentName, gh |-> H(av[j]), sh |-> H(av[j])]]
 
 GnuModeOK ==
     mode = "gnu" =>
-        \A nb \in NBuckets \cup {GnuBucketCount(Len(D0))}, mw \in MaskWordsSet, sft \in Shifts,
-           flip \in (IF HasDup THEN BOOLEAN ELSE {FALSE}), U \in Us :
-            TableOK(BuildT(U, D0, TRUE, TRUE, nb, mw, sft, flip), Probes, TRUE, TRUE)
+        LET D == D0
+            pr == Probes IN
+        \A q \in ParamSet, flip \in FlipSet :
+            LET T == BuildT(IF q.u THEN <<Undef>> ELSE <<>>, D, TRUE, TRUE,
+                            IF q.nb = 0 THEN GnuBucketCount(Len(D)) ELSE q.nb, q.mw, q.sft, flip)
+            IN TableOK(T, pr, TRUE, TRUE)
 
 (* wild's own parameters, explicitly *)
 WildParamsOK ==
     mode = "gnu" =>
         \A U \in Us : TableOK(BuildT(U, D0, TRUE, TRUE, GnuBucketCount(Len(D0)), WildBloomCount,
-                                     WildBloomShift, FALSE), Probes, TRUE, TRUE)
+                                     WildBloomShift, NoFlip), Probes, TRUE, TRUE)
 
 Permute(D, p) == [k \in 1..Len(D) |-> D[p[k]]]
 SysvModeOK ==
     mode = "sysv" =>
-        \A p \in Permutations(1..Len(D0)), U \in Us :
-            TableOK(BuildT(U, IF D0 = <<>> THEN <<>> ELSE Permute(D0, p), FALSE, TRUE, 1, 1, 1, FALSE),
-                    Probes, FALSE, TRUE)
+        LET D == D0
+            pr == Probes IN
+        \A p \in Permutations(1..Len(D)), U \in Us :
+            LET T == BuildT(U, IF D = <<>> THEN <<>> ELSE Permute(D, p), FALSE, TRUE, 1, 1, 1, NoFlip)
+            IN TableOK(T, pr, FALSE, TRUE)
 
 (* Lookups through a table that was not emitted find nothing: an output with defined dynamic
    symbols needs the requested tables (used by the observed-state check). *)
 MissingTableNotOK ==
     (mode = "gnu" /\ names # <<>>) =>
-        ~TableOK(BuildT(<<>>, D0, FALSE, TRUE, 1, 1, 1, FALSE), Probes, TRUE, FALSE)
+        ~TableOK(BuildT(<<>>, D0, FALSE, TRUE, 1, 1, 1, NoFlip), Probes, TRUE, FALSE)
 =============================================================================
